@@ -262,21 +262,41 @@ class SigmaFilter(SigmaRuleBase):
         # Wildcards are only valid at the start or end of a Sigma identifier pattern
         # but this regex accepts any occurrence; the Sigma condition parser is
         # responsible for rejecting syntactically invalid patterns at parse time.
-        def _replace_token(m: re.Match[str]) -> str:
-            token = m.group(0)
-            if token in self._CONDITION_KEYWORDS:  # keywords are case-sensitive in conditions
-                return token
-            if token == "them":
+        # "all", "any", "1" and "of" are keywords only in the quantifier construct "<quantifier> of
+        # <pattern>": elsewhere they are names of detections like any other (a filter may call its
+        # detection "all") and are renamed.
+        condition = self.filter.condition[0]
+        tokens = list(
+            re.finditer(
+                r"[a-zA-Z0-9*_-]+",  # a whole identifier or pattern, whatever character it begins with
+                condition,
+            )
+        )
+        keyword_positions: set[int] = set()
+        for i, m in enumerate(tokens):
+            if (
+                i not in keyword_positions
+                and m.group(0) in ("all", "any", "1")
+                and i + 2 < len(tokens)
+                and tokens[i + 1].group(0) == "of"
+            ):
+                keyword_positions.update((i, i + 1))
+
+        def _replace_token(i: int, token: str) -> str:
+            if i in keyword_positions or token in ("not", "and", "or"):
+                return token  # keywords are case-sensitive in conditions
+            if token == "them" and (i - 1) in keyword_positions:
                 # "them" means all detections; replace with a pattern that matches all
                 # filter identifiers carrying the current prefix.
                 return prefix + "_*"
             return prefix + "_" + token
 
-        filter_condition = re.sub(
-            r"[a-zA-Z0-9*_-]+",  # a whole identifier or pattern, whatever character it begins with
-            _replace_token,
-            self.filter.condition[0],
-        )
+        filter_condition = ""
+        position = 0
+        for i, m in enumerate(tokens):
+            filter_condition += condition[position : m.start()] + _replace_token(i, m.group(0))
+            position = m.end()
+        filter_condition += condition[position:]
 
         # (a new list: the condition list may be shared with other rules, e.g. through a global
         # action document that was merged into several rules)
